@@ -791,7 +791,11 @@ def generators(ck):
                 if good:    # the yielded index must select exactly data[..., j, ...] along `axis` (for reading and writing)
                     for j, (t, b) in enumerate(items):
                         z = np.zeros(shape, int)
-                        z[tuple(slice(None) if v == -1 else v for v in t)] = 1
+                        try:
+                            z[tuple(slice(None) if v == -1 else v for v in t)] = 1
+                        except (IndexError, ValueError, TypeError):     # the yielded index is not usable on the array at all
+                            good = False
+                            break
                         w = np.zeros(shape, int)
                         w[(slice(None),) * (a % nd) + (j,)] = 1
                         good = good and np.array_equal(z, w) and np.array_equal(b, np.take(data, j, axis=a))
@@ -1261,10 +1265,27 @@ def pca_designs(ck):
             fams = _design_families(n, rng)
             keeps = [("None", None)] + fams
             resids = [("None", None), ("mean", "mean")] + fams
-            for kname, K in keeps:
-                for rname, Rm in resids:
+            combos = [(kname, K, rname, Rm) for kname, K in keeps for rname, Rm in resids]
+            # kept subspaces NEARLY INSIDE the removed one (large offsets, small perturbations of removed directions): the
+            # projection (I - P_resid) P_keep then has only small singular values, and the component count is decided by
+            # their RATIO to the largest one (tol_ratio), not by their size
+            for rname, Rm in resids[1:]:
+                Rb = np.ones((n, 1)) if isinstance(Rm, str) else Rm[:, np.abs(Rm).sum(axis=0) > 0]
+                if Rb.shape[1] == 0:
+                    continue
+                r0 = Rb[:, 0]
+                ra = Rb[:, -1] if Rb.shape[1] > 1 else 2.0 * r0
+                u1, u2 = (rng.integers(-3, 4, size=n).astype(float) for _ in range(2))
+                scale = float(rng.choice([1.0, 30.0, 1000.0]))
+                combos.append(("near-nested:offset-regressor", (scale * r0 / max(1.0, np.abs(r0).max()) + u1 * [1.0, 0.1, 0.003][rep_i % 3]
+                                                                ).reshape(n, 1), rname, Rm))
+                combos.append(("near-nested:two-scales", np.column_stack([r0 + 0.6 * u1, ra + [0.008, 0.05, 0.0005][rep_i % 3] * u2]), rname, Rm))
+                combos.append(("near-nested:three-columns", np.column_stack([r0 + 0.02 * u1, ra + 0.02 * u2, r0 - ra + 0.02 * (u1 - u2)]), rname, Rm))
+            for ci_, (kname, K, rname, Rm) in enumerate(combos):
+                if True:
                     if kname == "None" and rname in ("None", "mean") and rep_i > 0:
                         continue
+                    tol_ratio = [0.01, 0.01, 0.1, 0.001][(ci_ + rep_i) % 4]
                     nvox = 3 * n
                     Y = np.round(rng.normal(size=(n, nvox)) * 8) / 4 + 0.25 * rng.normal(size=(n, nvox))
                     standardize = bool((n + len(kname) + len(rname) + rep_i) % 2)
@@ -1281,26 +1302,28 @@ def pca_designs(ck):
                     U, S, _ = np.linalg.svd(XZ)
                     rep = {"n_pts": n, "design_keep": None if K is None else K.tolist(), "design_keep_kind": kname,
                            "design_resid": Rm if (Rm is None or isinstance(Rm, str)) else Rm.tolist(), "design_resid_kind": rname,
-                           "standardize": standardize, "data_shape": list(data.shape), "data": data.tolist(),
+                           "standardize": standardize, "data_shape": list(data.shape), "data": data.tolist(), "tol_ratio": tol_ratio,
+                           "singular_values_of_projection": S.tolist(),
                            "call": "nipy.algorithms.utils.pca.pca(np.array(data), 0, standardize=standardize, "
-                                   "design_keep=np.array(design_keep), design_resid=np.array(design_resid))"}
+                                   "design_keep=np.array(design_keep), design_resid=np.array(design_resid), tol_ratio=tol_ratio)"}
                     if S.max() < 1e-9:
                         # nothing is left after the projections: any behaviour but garbage components is acceptable; skip
                         n_skip += 1
                         continue
                     ratio = S / S.max()
-                    if np.any((ratio > 1e-8) & (ratio < 0.05)):
-                        n_skip += 1        # too close to tol_ratio = 0.01: the component count is not well defined
+                    if np.any((ratio > tol_ratio / 2.5) & (ratio < tol_ratio * 2.5)) or np.any((ratio > 1e-9) & (ratio < 1e-6)):
+                        n_skip += 1        # a ratio too close to tol_ratio (or to rounding noise): the component count is not well defined
                         continue
-                    rank = int((ratio > 0.01).sum())
+                    rank = int((ratio > tol_ratio).sum())
                     Ux = U[:, :rank]
                     Pxz = Ux @ Ux.T
-                    sig = "keep=%s,resid=%s" % ("deficient" if (K is not None and np.linalg.matrix_rank(K) < K.shape[1]) else "full" if K is not None else "none",
+                    sig = "keep=%s,resid=%s" % ("near-nested" if kname.startswith("near-nested") else
+                                               "deficient" if (K is not None and np.linalg.matrix_rank(K) < K.shape[1]) else "full" if K is not None else "none",
                                                "deficient" if (isinstance(Rm, np.ndarray) and (not np.any(Rm) or np.linalg.matrix_rank(Rm) < Rm.shape[1]))
                                                else "full" if isinstance(Rm, np.ndarray) else str(rname))
                     ck.count(("pca-design", n, kname, rname, rep_i), bucket="pca-design:" + sig)
                     try:
-                        res = pca(data, 0, standardize=standardize, design_keep=K, design_resid=Rm)
+                        res = pca(data, 0, standardize=standardize, design_keep=K, design_resid=Rm, tol_ratio=tol_ratio)
                     except Exception as e:  # noqa
                         ck.fail("pca-design/raises/" + sig, "pca with design_keep=%s, design_resid=%s (n_pts=%d) raised %s: %s"
                                 % (kname, rname, n, type(e).__name__, e), rep)
@@ -1310,8 +1333,9 @@ def pca_designs(ck):
                     # (a) component count = rank of the projection (I - P_resid) P_keep
                     if B.shape != (n, rank) or pv.shape != (rank,) or res['basis_projections'].shape[0] != rank:
                         ck.fail("pca-design/component-count/" + sig,
-                                "pca(design_keep=%s, design_resid=%s, n_pts=%d): %d components returned (basis %s), but the projection "
-                                "(I - P_resid) P_keep onto the design spans has rank %d" % (kname, rname, n, B.shape[1], B.shape, rank), rep)
+                                "pca(design_keep=%s, design_resid=%s, n_pts=%d, tol_ratio=%g): %d components returned (basis %s), but the projection "
+                                "(I - P_resid) P_keep onto the design spans has %d singular values above tol_ratio * largest (singular values %s)"
+                                % (kname, rname, n, tol_ratio, B.shape[1], B.shape, rank, np.round(S[:n], 6).tolist()), rep)
                         continue
                     # (b) basis vectors orthonormal, inside the projected design span, orthogonal to the removed span
                     if np.abs(B.T @ B - np.eye(rank)).max() > TOL:
@@ -1354,7 +1378,7 @@ def pca_designs(ck):
                         kw = dict(design_keep=K, design_resid=Rm)
                         kw["design_" + which] = M2
                         try:
-                            r2 = pca(data, 0, standardize=standardize, **kw)
+                            r2 = pca(data, 0, standardize=standardize, tol_ratio=tol_ratio, **kw)
                         except Exception as e:  # noqa
                             ck.fail("pca-design/reparametrised-raises/" + sig, "pca raised %s when design_%s was replaced by another matrix "
                                     "with the same column span" % (e, which), dict(rep, reparametrised=which, matrix=M2.tolist()))
